@@ -621,6 +621,7 @@ UniValue DoCreate(World& w, const UniValue& a, UniValue& line)
     UniValue ja(UniValue::VOBJ);
     ja.pushKV("ok", acc.m_result_type == MempoolAcceptResult::ResultType::VALID);
     ja.pushKV("why", acc.m_state.IsValid() ? "" : acc.m_state.GetRejectReason());
+    ja.pushKV("dbg", acc.m_state.IsValid() ? "" : acc.m_state.GetDebugMessage());
     r.pushKV("accept", ja);
     if (a.exists("commit") && a["commit"].get_bool() && acc.m_result_type == MempoolAcceptResult::ResultType::VALID) {
         if (ext.empty()) w.wallet->CommitTransaction(tx);      // CWallet::CommitTransaction requires every input to be a wallet transaction
@@ -695,7 +696,7 @@ UniValue DoBump(World& w, const UniValue& a, UniValue& line)
     UniValue o(UniValue::VOBJ);
     o.pushKV("tx", orig.name); o.pushKV("ins", jo["ins"]); o.pushKV("outs", jo["outs"]);
     o.pushKV("changepos", orig.change_pos ? (int)*orig.change_pos : -1);
-    o.pushKV("fee", (int64_t)orig_fee); o.pushKV("vsize", orig_vsize);
+    o.pushKV("fee", (int64_t)orig_fee); o.pushKV("vsize", orig_vsize); o.pushKV("weight", (int64_t)GetTransactionWeight(*orig.tx));
     o.pushKV("depth", depth); o.pushKV("pool", w.pool().exists(txid)); o.pushKV("inputsgone", inputs_gone && depth == 0);
     o.pushKV("replaced", !orig.replaced_by.empty()); o.pushKV("walletdesc", walletdesc); o.pushKV("pooldesc", w.pool().HasDescendants(txid));
     o.pushKV("allmine", allmine);
@@ -756,13 +757,14 @@ UniValue DoBump(World& w, const UniValue& a, UniValue& line)
     UniValue jn = TxJson(w, *ntx);
     UniValue nw(UniValue::VOBJ);
     nw.pushKV("tx", nn); nw.pushKV("ins", jn["ins"]); nw.pushKV("outs", jn["outs"]);
-    nw.pushKV("vsize", (int64_t)GetVirtualTransactionSize(*ntx)); nw.pushKV("invalue", (int64_t)InputValue(w, *ntx));
+    nw.pushKV("vsize", (int64_t)GetVirtualTransactionSize(*ntx)); nw.pushKV("weight", (int64_t)GetTransactionWeight(*ntx)); nw.pushKV("invalue", (int64_t)InputValue(w, *ntx));
     r.pushKV("new", nw);
     r.pushKV("oldfee", (int64_t)old_fee); r.pushKV("newfee", (int64_t)new_fee); r.pushKV("signed", signed_ok);
     auto acc = w.Submit(ntx, /*test_only=*/true);
     UniValue ja(UniValue::VOBJ);
     ja.pushKV("ok", acc.m_result_type == MempoolAcceptResult::ResultType::VALID);
     ja.pushKV("why", acc.m_state.IsValid() ? "" : acc.m_state.GetRejectReason());
+    ja.pushKV("dbg", acc.m_state.IsValid() ? "" : acc.m_state.GetDebugMessage());
     r.pushKV("accept", ja);
     bool committed = false;
     if (a["commit"].get_bool() && allmine) {
